@@ -921,9 +921,40 @@ SiteInfoEv(ev) ==
              "C19.site_info.opposite_directions")
      \cup F(Cardinality(allnames) = Len(t.edges), "C19.site_info.one_name_per_bond")
 
+
+---------------------------------------------------------------------------
+\* C15: a replayed thread schedule of the fuse-plan cache
+\* result registers are named t<thread>_<i>_<array>; the reference of array X is ref_X
+ThreadsEv(ev) ==
+  LET a == ev.args
+      R == ev.regs
+      names == {r \in DOMAIN R : \E i \in 1..Len(a.results) : a.results[i] = r}
+      \* the harness lists for every result the register holding the sequential value
+      pairs == {<<a.results[i], a.refs[i]>> : i \in 1..Len(a.results)}
+  IN F(a.errors = <<>>, "C15.threads.no_exception")
+     \cup F(~a.diverged, "C15.threads.completed")
+     \cup F(\A p \in pairs : p[1] \in DOMAIN R /\ p[2] \in DOMAIN R /\ Obs(R[p[1]]) = Obs(R[p[2]]),
+            "C15.threads.equals_sequential")
+     \cup F(a.expected_results = Len(a.results), "C15.threads.all_calls_returned")
+     \cup F(a.final_size <= (IF a.maxsize = 0 THEN 0 ELSE a.maxsize), "C15.threads.size_bound")
+ThreadsDrift(ev) == F(ev.args.actual = ev.args.predicted, "L2.schedule")
+
+
+\* C15: the default contraction mode is restored on exit, also after an error, also nested
+ModeCtxEv(ev) ==
+  LET a == ev.args
+      m == Outs(ev, 1)
+      want == IF Has(a, "nested") THEN <<a.mode, a.nested, a.mode>> ELSE <<a.mode>>
+  IN IF ev.outcome = "raise" THEN {"C15.mode_context.raises"}
+     ELSE F(m.after = m.before, "C15.mode_context.restored")
+          \cup F(m.inside = want, "C15.mode_context.inside")
+
 ---------------------------------------------------------------------------
 OpFails(ev, pre) ==
   IF ev.op \in {"group_pairs", "group_assoc", "sectors"} THEN TableFails(ev)
+  ELSE IF ev.op = "threads_run" THEN ThreadsEv(ev)
+  ELSE IF ev.op = "mode_ctx" THEN ModeCtxEv(ev)
+  ELSE IF ev.op \in {"set_cache", "set_default_mode", "make_state"} THEN {}
   ELSE IF ev.op = "local_elements" THEN LocalElementsEv(ev)
   ELSE IF ev.op = "local_array" THEN LocalArrayEv(ev)
   ELSE IF ev.op = "ham_edge" THEN HamEdgeEv(ev)
@@ -952,6 +983,7 @@ EventFails(ev, pre) ==
   \cup OpFails(ev, pre)
 
 EventDrift(ev, pre) ==
-  IF ev.op \in {"group_pairs", "group_assoc", "sectors"} THEN TableDrift(ev) ELSE {}
+  IF ev.op \in {"group_pairs", "group_assoc", "sectors"} THEN TableDrift(ev)
+  ELSE IF ev.op = "threads_run" THEN ThreadsDrift(ev) ELSE {}
 
 =============================================================================
